@@ -7,7 +7,7 @@ import sys
 import time
 
 from .. import core, env
-from . import discharge, kexec, kwitness, norm, spec
+from . import discharge, kexec, kwitness, manyexec, norm, spec
 
 BASELINE = os.path.join(core.VERIF, "contracts", "baseline_obligations.json")
 
@@ -18,7 +18,13 @@ PARAMS = {
     "intersection": ["left_array", "right_array"],
     "union": ["left_array", "right_array", "copy_left", "copy_right"],
     "difference": ["left_array", "right_array", "copy"],
+    "set_union_merge_many": ["arrays"],
 }
+MANY = "set_union_merge_many"
+MANY_TRACE_WITNESSES = [
+    ([[1, 2], [2, 3]],), ([[5], [5], [5]],), ([[0, 4, 9], [], [1, 4], [2 ** 32 - 1]],), ([[2 ** 32 - 1]],), ([[1, 5], [5, 6, 7]],),
+    ([[3, 4], [1, 2], [0, 9]],), ([[], []],), ([[7]],), ([[1, 3, 5, 7], [2, 3, 6], [3], [0, 7, 8]],),
+]
 
 TRACE_WITNESSES = [
     ([1], [1]), ([1, 3, 5], [1, 3, 5]), ([0, 2, 4, 6], [1, 2, 3, 6, 7]), ([1, 2, 3, 6, 7], [0, 2, 4, 6]),
@@ -117,12 +123,12 @@ def run(ctx, which):
     probed = probes()
 
     if which == "C09":
-        tables = [("SAFETY", K.SAFETY)]
+        tables = [("SAFETY", K.SAFETY), ("SAFETY_MANY", K.SAFETY_MANY)]
         report_kinds = None  # everything generated under the SAFETY contract belongs to C09
         variant = "boundscheck"
         scope = "any"
     else:
-        tables = [("FUNCTIONAL", K.FUNCTIONAL), ("WRAPPERS", K.WRAPPERS)]
+        tables = [("FUNCTIONAL", K.FUNCTIONAL), ("WRAPPERS", K.WRAPPERS), ("FUNCTIONAL_MANY", K.FUNCTIONAL_MANY)]
         report_kinds = None
         variant = "prod"
         scope = "increasing"
@@ -142,10 +148,13 @@ def run(ctx, which):
                     raise kexec.Unsupported("set_operations.pyx is outside the normaliser's subset (%s)" % norm_failed)
                 if fname not in n.funcs:
                     raise kexec.Unsupported("function %s not found in set_operations.pyx" % fname)
-                ex = kexec.KernelExec(n, fname, contract, callees=K.CALLEES)
+                if fname == MANY:
+                    ex = manyexec.ManyExec(n, fname, contract)
+                else:
+                    ex = kexec.KernelExec(n, fname, contract, callees=K.CALLEES)
                 obls = ex.run()
                 executors[key] = ex
-            except (kexec.Unsupported, spec.SpecError, KeyError) as e:
+            except (kexec.Unsupported, spec.SpecError, KeyError, AttributeError, TypeError) as e:
                 stale.append((tname, fname, "%s: %s" % (type(e).__name__, e)))
                 continue
             if not obls:
@@ -160,6 +169,10 @@ def run(ctx, which):
     for r in results:
         byfn.setdefault("%s:%s" % (r.ob.meta["table"], r.ob.meta["fname"]), []).append(r)
         new_baseline["%s|%s" % (r.ob.meta["table"], r.name)] = r.hash
+
+    # ---- set_union_merge_many: bounded run of the real code (covers the filter of empty arrays and the empty list, which the
+    #      proof takes as given, and provides failing inputs when an obligation of the proof fails)
+    many = _kw({"op": "search_many", "variant": variant, "maxk": 3 if ctx.tier != "thorough" else 4})
 
     # ---- verdicts
     undecided = []
@@ -182,6 +195,24 @@ def run(ctx, which):
             raise core.CheckerBroken("vacuity: `False` is provable at %s (contradictory requires/invariant)"
                                      % ", ".join(r.name for r in bad_canaries[:3]))
         if not failed:
+            continue
+        if fname == MANY:
+            # the proof speaks about ghost symbols; failing inputs come from the bounded run of the real code
+            hits = [h for h in many["hits"] if which != "C09" or (isinstance(h["outcome"], str) and "IndexError" in h["outcome"])]
+            if hits:
+                h = hits[0]
+                ctx.violation(core.Violation(
+                    which, failed[0].name, "obligation not discharged (%s); the bounded run of the real code fails: set_union_merge_many(%s) -> %s, expected %s; "
+                    "open obligations: %s" % (failed[0].verdict, h["args"], h["outcome"], h["expected"], ", ".join(x.name.split("/")[-1] for x in failed[:6])),
+                    input={"function": MANY, "args": h["args"], "build": variant}, cls={"function": MANY, "class": h["class"]}))
+            else:
+                changed = [r for r in failed if baseline.get("%s|%s" % (tname, r.name)) != r.hash]
+                r = (changed or failed)[0]
+                ctx.violation(core.Violation(
+                    which, r.name, "obligation generated from the current source is not discharged (%s by %s); no failing input in the bounded scope "
+                    "(%d lists); open obligations: %s" % (r.verdict, r.backend, many["calls"], ", ".join(x.name.split("/")[-1] for x in failed[:6])),
+                    input=None, cls={"function": MANY, "kind": r.kind},
+                    solver={"verdict": r.verdict, "backend": r.backend, "detail": r.detail, "site": r.ob.meta.get("site", "")}, no_input=True))
             continue
         # (a) counter-models, replayed on the real code built from the working tree
         reported = False
@@ -239,6 +270,8 @@ def run(ctx, which):
         contract = dict(tables)[tname][fname]
         params = PARAMS[fname]
         per_function["%s:%s" % (tname, fname)] = {"proof_stale": True, "why": why, "level": "bounded"}
+        if fname == MANY:
+            continue  # its bounded run is reported below in any case
         try:
             hit = _kw({"op": "search", "table": tname, "fname": fname, "params": params, "variant": variant, "scope": scope})
         except core.CheckerBroken as e:
@@ -255,11 +288,11 @@ def run(ctx, which):
             ))
 
     # ---- set_union_merge_many: bounded stand-in (never counted as proved; DESIGN §6 C08)
-    many = _kw({"op": "search_many", "variant": variant, "maxk": 3 if ctx.tier != "thorough" else 4})
     per_function["BOUNDED:set_union_merge_many"] = {"level": "bounded", "calls": many["calls"], "failing": len(many["hits"]),
                                                     "scope": "all lists of <= %d strictly increasing arrays over {0,1,5,2**32-2,2**32-1}" % (3 if ctx.tier != "thorough" else 4)}
     seen_cls = set()
-    for h in many["hits"]:
+    already = any(v.cls.get("function") == MANY for v in ctx.violations)
+    for h in ([] if already else many["hits"]):
         if which == "C09" and not (isinstance(h["outcome"], str) and "IndexError" in h["outcome"]):
             continue  # C09 is about memory safety only: on the bounds-checked build that is an IndexError
         if h["class"] in seen_cls:
@@ -276,7 +309,8 @@ def run(ctx, which):
         tname, fname = key.split(":")
         if not ex.c.get("loops"):
             continue
-        tr = kwitness.trace_invariants(n.py_text, fname, ex.c, TRACE_WITNESSES)
+        tr = kwitness.trace_invariants(n.py_text, fname, ex.c, MANY_TRACE_WITNESSES if fname == MANY else TRACE_WITNESSES,
+                                       ghosts=kwitness.many_ghosts if fname == MANY else None)
         traces[key] = {"clause_evaluations": tr["evaluations"], "failures": tr["failures"][:2], "unhit_branches": tr["unhit"]}
         clean = not ctx.violations and not undecided and key in per_function and \
             per_function[key].get("obligations") == per_function[key].get("discharged")
